@@ -223,7 +223,12 @@ void Value::do_sub() {
     if (!get_arith_uint256(Value(args[0]), a)) return;
     if (!get_arith_uint256(Value(args[1]), b)) return;
     if (args.size() == 3 && !get_arith_uint256(Value(args[2]), g)) return;
-    b = -b;
+    if (!g.EqualTo(0)) {
+        // subtract within the group: a + (g - b); negating modulo 2^256 only works without a group
+        b = (g - (b % g)) % g;
+    } else {
+        b = -b;
+    }
     add(data, a, b, g);
 }
 
